@@ -18,7 +18,7 @@ def pGenRet (j : Json) : GenRet :=
 def pFn (j : Json) : Fn :=
   { name := jS (jF j "name"), flags := flagsOfSource (jS (jF j "name")) (jS (jF j "source")), qualDotted := jB (jF j "qualDotted")
     params := (jL (jF j "params")).map pParam, selfName := jN (jF j "selfName")
-    firstIsSelf := jB (jF j "firstIsSelf"), isBound := jB (jF j "isBound")
+    firstIsSelf := isInstanceMethodOf (jB (jF j "firstIsSelf")) (jB (jF j "isBound")), isBound := jB (jF j "isBound")
     retAnn := pOptAnn (jF j "ret"), genRet := pGenRet (jF j "genRet")
     flavour := (match jS (jF j "flavour") with | "coroutine" => .coroutine | "generator" => .generator | _ => .sync)
     mode := (match jS (jF j "mode") with | "requireKwargs" => .requireKwargs | _ => .pedantic) }
